@@ -34,7 +34,6 @@ HAZ_ANY = re.compile(r"(?:(?<=\s)|^)(?:[-+*>]|#{1,6}|\d{1,9}\\?[.)]|\\[-+*>#]+|-
 TRIGGERS = [
     ("C01-heading-in-tight-list", re.compile(r"^[ >]*(?:[-*+]|\d+[.)])[ ]+#{1,6}[ ]", re.M)),
     ("C01-adjacent-ordered-lists-merge", re.compile(r"^[ >]*\d+\)[ ]", re.M)),
-    ("C01-empty-list-item", re.compile(r"^[ >]*(?:[-*+]|\d+[.)])[ ]*$", re.M)),
     ("C01-leading-indented-code", re.compile(r"\A\s*?(?:\n)*(?: {4}|\t)")),
     ("C01-hardbreak-after-bare-url", re.compile(r"(?:https?://|www\.)\S*(?:  |\\)\n")),
     ("C06-separated-tags-lose-space", re.compile(r"%\} \{%|\}\} \{\{|#\} \{#|--> <!--")),
@@ -46,7 +45,6 @@ def neutralise(doc: str) -> str:
     d = doc
     d = re.sub(r"^([ >]*(?:[-*+]|\d+[.)])[ ]+)#{1,6}[ ]", r"\1", d, flags=re.M)       # heading as item child -> paragraph
     d = re.sub(r"^([ >]*\d+)\)([ ])", r"\1.\2", d, flags=re.M)                       # 1) -> 1.
-    d = re.sub(r"^([ >]*(?:[-*+]|\d+[.)]))[ ]*$", r"\1 x", d, flags=re.M)              # empty item gets content
     d = re.sub(r"\A(\s*\n)*(?: {4}|\t)", "", d)                                      # leading indented code
     d = re.sub(r"((?:https?://|www\.)\S*?)(  |\\)\n", r"\1 x\2\n", d)
     d = re.sub(r"(%\}|\}\}|#\}|-->) (?=\{%|\{\{|\{#|<!--)", r"\1 x ", d)                    # a word between separated tags                # word between bare URL and hard break
